@@ -270,12 +270,19 @@ def rule_maybe_done_poll(ctx, M):
         re_ = bi.outcome_edges(c, "Ready")
         pe = bi.outcome_edges(c, "Pending")
         payload = ("field", ("variant", c.term, "Ready"), 0)
+        def is_done_of_payload(v):
+            # also when the poll result was parked in a carrier first (`let polled = .. Some(fut.poll(cx)) ..; match polled {
+            # Some(Poll::Ready(res)) => self.set(Done(res))`): read the stored value back through the carrier
+            if not (v is not None and v[0] == "agg" and v[1] == ("MaybeDone", "Done") and len(v[2]) == 1):
+                return False
+            x = v[2][0]
+            return x == payload or flow.refine(bi, x) == payload
         sets = []
         for s in bi.sites:
-            if s.callee.name == "set" and s.callee.owner == "Pin" and s.arg(1) == ("agg", ("MaybeDone", "Done"), (payload,)):
+            if s.callee.name == "set" and s.callee.owner == "Pin" and is_done_of_payload(s.arg(1)):
                 sets.append(s.block)
         for blk, pt, v, sp in scan.field_writes(bi):
-            if v == ("agg", ("MaybeDone", "Done"), (payload,)):
+            if is_done_of_payload(v):
                 sets.append(blk)
         if not re_ or not sets or not bi.must_reach([t for _, t in re_], sets, bi.return_blocks)[0]:
             probs.append("the output is not stored as Done(output) before Ready is returned")
